@@ -206,6 +206,8 @@ def pc_show(pc):
             out.append("%sisnan(%s)" % ("" if e[2] else "!", F.show(e[1])))
         elif k == "ovf":
             out.append("%soverflow(%s)" % ("" if e[2] else "!", e[1]))
+        elif k == "bopq":
+            out.append("%s?%s" % ("" if e[2] else "!", e[1]))      # an unmodelled condition
     return " & ".join(out)
 
 
